@@ -282,6 +282,10 @@ def ba2int(it, x, signed):
             return s.val
         if s.kind == 'i' and not signed:
             return mod2(s.val, s.n)       # the unsigned reading of a signed field: v mod 2^n
+        if s.kind == 'u' and signed:
+            r_ = irange(s.val)
+            if r_ is not None and 0 <= r_[0] and r_[1] < (1 << (s.n - 1)):
+                return s.val              # the top bit is clear: the signed reading is the same number
     return Term('ba2int', K(x.desc()), K(bool(signed)), BAref(x.copy()))
 
 
